@@ -7,7 +7,12 @@
 (* (M) instances: records of spec/lib/MDP.tla, already in the planner's own index order  *)
 (*     (state i = i-th entry of mdp.state_list, action j = j-th entry of action_list),   *)
 (*     plus CAP (= max_iterations) and `inits` (initial decision rules handed to         *)
-(*     multichain_policy_iteration_vectorized(policy=...)).                              *)
+(*     multichain_policy_iteration_vectorized(policy=...)).  Rewards may be numerators   *)
+(*     over a reward denominator RD (field RD, default 1; the near-tie family uses       *)
+(*     RD = 2500, rewards 2500 vs 2501 = 1 vs 1.0004): values, gains, relative values    *)
+(*     and action tables are linear in the rewards and every argmax / tie is invariant   *)
+(*     under the scaling, so all quantities below are in units of 1/RD and the emitted   *)
+(*     records carry `rd` for the harness to divide by.                                  *)
 (* (O) oracle: discounted -> MDP!OptimalValue; undiscounted -> Chain!GainOracle (closed  *)
 (*     classes, tree-theorem stationary weights, absorption probabilities, max over the  *)
 (*     deterministic policies).                                                          *)
@@ -40,6 +45,7 @@ Zero(m)  == [s \in St(m) |-> <<0, 1>>]
 \* absorbing_state_vec of the code: explicitly or implicitly absorbing
 AbsM(m)  == AbsAll(m)
 Unbound  == <<>>                      \* value of a local the code has not assigned yet
+Unit(m)  == IF "RD" \in DOMAIN m THEN m.RD ELSE 1     \* reward denominator: all values are in units of 1/RD
 
 \* ------------------------------------------------------------------ oracle bundle
 Oracle(m) ==
@@ -153,19 +159,40 @@ Converged == phase \in {"done", "cap"} /\ k < M.CAP - 1
 \* ------------------------------------------------------------------ pipeline B: judge a returned policy
 \* record = instance fields + w (integer weights per state and action, as returned by the real planner)
 \*          + exp (the optimal quantity per state emitted by the "mc" run) + tag
+\* How far the rule a returned policy rests on is from passing the code's own stopping tests, exactly:
+\* per state outside the absorbing ones  gain gap  = max_a sum_t P g - (the rule's own),
+\*                                       bias gap  = max_a (r + gamma sum_t P h) - (the rule's own),
+\* with g, h the exact evaluation of the rule (p = first supported action per state) as in `Evaluate`.
+\* A converged run can legitimately rest on a rule with non-zero gaps only if they are inside the code's
+\* np.isclose window (1e-8 + 1e-5 |max|): the harness compares these exact numbers with that window to
+\* tell "stopped inside msdm's own tolerance" (not judged) from "kept a worse action" (VIOLATION).
+StopGaps(m, w) ==
+  LET p   == [s \in St(m) |-> IF \E a \in Ac(m) : w[s][a] > 0 THEN MinSet({a \in Ac(m) : w[s][a] > 0}) ELSE 1]
+      gg  == EvalGain(m, p)
+      hh  == EvalBias(m, p, gg)
+      gqq == GainQ(m, gg)
+      bqq == BiasQ(m, hh)
+      ab  == AbsM(m)
+  IN [s \in St(m) |->
+        IF s \in ab \/ p[s] \notin Avail(m, s)
+        THEN [ggap |-> <<0, 1>>, gmax |-> <<0, 1>>, bgap |-> <<0, 1>>, bmax |-> <<0, 1>>]
+        ELSE [ggap |-> RSub(MaxOver(m, gqq, s), gqq[s][p[s]]), gmax |-> MaxOver(m, gqq, s),
+              bgap |-> RSub(MaxOver(m, bqq, s), bqq[s][p[s]]), bmax |-> MaxOver(m, bqq, s)]]
+
 JudgeRecord(m) ==
   LET ab   == ExplAbs(m)
       w    == [s \in St(m) |-> [a \in Ac(m) |-> m.w[s][a]]]
       okav == [s \in St(m) |-> \A a \in Ac(m) : w[s][a] > 0 => a \in Avail(m, s)]
       ok   == WeightsOK(m, w, ab)
       pv   == IF ~ok THEN <<>> ELSE IF Discounted(m) THEN DiscValue(m, w, ab) ELSE PolicyGain(m, w, ab)
-  IN [iid |-> iid, kind |-> "judge", tag |-> m.tag, wellformed |-> ok, availok |-> okav, pv |-> pv,
-      attains |-> IF ~ok THEN <<>> ELSE [s \in St(m) |-> pv[s] = <<m.exp[s][1], m.exp[s][2]>>]]
+  IN [iid |-> iid, kind |-> "judge", tag |-> m.tag, rd |-> Unit(m), wellformed |-> ok, availok |-> okav, pv |-> pv,
+      attains |-> IF ~ok THEN <<>> ELSE [s \in St(m) |-> pv[s] = <<m.exp[s][1], m.exp[s][2]>>],
+      stop |-> IF ~ok THEN <<>> ELSE StopGaps(m, w)]
 
 \* ------------------------------------------------------------------ emission
 Emit ==
   /\ phase = "inst" =>
-       PrintT(ToJson([iid |-> iid, kind |-> "oracle", disc |-> opt.disc, v |-> opt.v, init |-> opt.init,
+       PrintT(ToJson([iid |-> iid, kind |-> "oracle", rd |-> Unit(M), disc |-> opt.disc, v |-> opt.v, init |-> opt.init,
                       nvals |-> opt.nvals, maxcls |-> opt.maxcls, mincls |-> opt.mincls,
                       absall |-> AbsM(M)]))
   /\ Terminal =>
